@@ -140,6 +140,26 @@ def run_slices(mod_name: str, tier: str, seed: int, harnesses: List[Harness]) ->
     return results
 
 
+def run_chunks(mod_name: str, func: str, tier: str, nchunks: Optional[int] = None) -> List[Dict[str, Any]]:
+    """Parallel map over fresh interpreters: module.func(tier, i, n) for i in range(n)."""
+    n = nchunks or NCPU
+    py = os.path.join(ROOT, ".venv", "bin", "python")
+    env = dict(os.environ)
+    env["PYTHONHASHSEED"] = "0"
+    errf = None if os.environ.get("VERIF_DEBUG") else subprocess.DEVNULL
+    procs = [subprocess.Popen([py, "-m", "vlib.chunkworker", mod_name, func, tier, str(i), str(n)],
+                              stdout=subprocess.PIPE, stderr=errf, text=True, cwd=ROOT, env=env) for i in range(n)]
+    out = []
+    for i, p in enumerate(procs):
+        so, _ = p.communicate()
+        line = [l for l in so.splitlines() if l.startswith("@@")]
+        if not line:
+            out.append({"error": "chunk %d produced no result (exit %s)" % (i, p.returncode)})
+        else:
+            out.append(json.loads(line[-1][2:]))
+    return out
+
+
 # --------------------------------------------------------------------------------------------
 # Replay
 
@@ -328,7 +348,7 @@ def finish(out: Outcome, tier: str, seed: int, wall0: float) -> int:
         lines.append("VIOLATION property=%s replay=%s  # %s" % (pid, path, f.what))
     cov = dict(out.coverage)
     cov["known_findings_seen"] = sorted(known_seen)
-    cov["violations_reported"] = [dict(key=f.key, what=f.what, replay=f.replay_path) for f in violations[:20]]
+    cov["violations_reported"] = [dict(key=f.key, what=f.what, replay=f.replay_path) for f in violations[:200]]
     if out.inconclusive:
         cov["inconclusive_reasons"] = out.inconclusive[:10]
     ev = {
